@@ -63,8 +63,41 @@ def expand(t, env=None):
 share = gen.share
 
 
+def nested_templates(draw):
+    """An anchored collection that contains an alias to an earlier anchor and is
+    itself referenced again, the positions having different declared types."""
+    A = {'name': 'A', 'kind': 'obj', 'bases': [], 'params': [{'name': 'x', 'type': 'int'}]}
+    E = {'name': 'E', 'kind': 'enum', 'members': ['true', 'red']}
+    S = {'name': 'S', 'kind': 'obj', 'bases': [], 'params': [{'name': 'n', 'type': 'int'}],
+         'savorize': [['int_add', 'n', -1]]}
+    k = draw(st.integers(0, 3))
+    v = draw(st.integers(0, 9))
+    if k == 0:
+        classes, ta, tb, tc, inner = [A], ['ref', 'A'], ['list', ['ref', 'A']], 'any', T.M([('x', T.S(str(v)))])
+    elif k == 1:
+        classes, ta, tb, tc = [E], 'bool', ['list', 'bool'], ['list', ['ref', 'E']]
+        inner = T.S('true')
+    elif k == 2:
+        classes, ta, tb, tc = [S], ['ref', 'S'], ['list', ['ref', 'S']], ['list', ['ref', 'S']]
+        inner = T.M([('n', T.S(str(v)))])
+    else:
+        classes, ta, tb, tc = [A], 'any', ['dict', 'str', 'any'], ['dict', 'str', ['ref', 'A']]
+        inner = T.M([('x', T.S(str(v)))])
+    W = {'name': 'W', 'kind': 'obj', 'bases': [], 'params': [
+        {'name': 'a', 'type': ta}, {'name': 'b', 'type': tb}, {'name': 'c', 'type': tc}]}
+    spec = {'classes': classes + [W], 'doc_type': ['ref', 'W'],
+            'order': [c['name'] for c in classes] + ['W']}
+    coll = T.M([('k', ['*', 'n0'])]) if tb[0] == 'dict' else T.Q([['*', 'n0']] + (
+        [['*', 'n0']] if draw(st.booleans()) else []))
+    pairs = [('a', ['&', 'n0', inner]), ('b', ['&', 'n1', coll]), ('c', ['*', 'n1'])]
+    return {'model': spec, 'doc': T.M(pairs), 'src': 'nested_template',
+            'info': [{'mode': 'template', 'kind': 'q', 'from': [1, 1, 1], 'to': [1, 2, 1]}]}
+
+
 @st.composite
 def cases(draw):
+    if draw(st.integers(0, 11)) == 0:
+        return nested_templates(draw)
     spec = draw(gen.models(FEATS))
     c = draw(st.sampled_from(range(10)))
     if c == 0:
